@@ -445,7 +445,7 @@ def main(argv):
     if ck.replay:
         ck.correspond(hb, db, [read_replay(ck.replay)], label="replay", ubsan_is_violation=ub)
     else:
-        n = 1000 if ck.tier == "quick" else 30000
+        n = 1000 if ck.tier == "quick" else 15000
         hs = CORPUS + [gen_history(ck.rng) for _ in range(n)]
         ck.correspond(hb, db, hs, label="mem", ubsan_is_violation=ub, timeout=3000)
         # the region of the known finding F05 (uninitialised receiver), plus casts to the zero-byte dtype void:
